@@ -567,7 +567,7 @@ Qed.
 (* token_strategy for the request Session::execute builds *)
 Lemma routing_request_ok st cfg values rq :
   routing_request st cfg values = Ok rq ->
-  exists tok, PartKey.ps_calculate_token (st_part st) (st_ncols st) (st_wire st) values = Ok tok /\
+  exists tok, PartKey.ps_calculate_token true (st_part st) (st_ncols st) (st_wire st) values = Ok tok /\
     rq_token rq = tok /\ rq_ks rq = option_map fst (st_table st) /\
     rq_lwt rq = (st_lwt st || ex_serial_cl cfg)%bool /\ rq_pref rq = ex_pref cfg.
 Proof.
@@ -1231,7 +1231,7 @@ Qed.
 Theorem first_target_ring cl cfg st values cho shufp k t s rq :
   cho_ok cho -> shuf_ok shufp -> cluster_ok cl -> sorted_weak (c_ring cl) -> keys_ok cl ->
   st_table st = Some k -> Tablets.find_table (c_tablets cl) k = None ->
-  PartKey.ps_calculate_token (st_part st) (st_ncols st) (st_wire st) values = Ok (Some t) ->
+  PartKey.ps_calculate_token true (st_part st) (st_ncols st) (st_wire st) values = Ok (Some t) ->
   pol_token_aware (ex_pol cfg) = true ->
   ks_lookup (c_keyspaces cl) (fst k) = Some s ->
   routing_request st cfg values = Ok rq ->
@@ -1271,7 +1271,7 @@ Qed.
 Theorem first_target_tablet cl cfg st values cho shufp k t s rq tb :
   cho_ok cho -> shuf_ok shufp -> cluster_ok cl -> sorted_weak (c_ring cl) -> keys_ok cl -> tablets_coherent cl ->
   st_table st = Some k -> Tablets.lookup_tablet (c_tablets cl) k t = Some tb ->
-  PartKey.ps_calculate_token (st_part st) (st_ncols st) (st_wire st) values = Ok (Some t) ->
+  PartKey.ps_calculate_token true (st_part st) (st_ncols st) (st_wire st) values = Ok (Some t) ->
   pol_token_aware (ex_pol cfg) = true ->
   ks_lookup (c_keyspaces cl) (fst k) = Some s ->
   routing_request st cfg values = Ok rq ->
@@ -1328,7 +1328,7 @@ Lemma routing_request_token st cfg values :
              rq_ks rq = option_map fst (st_table st).
 Proof.
   intros H1 H2 H3 H4. unfold routing_request.
-  rewrite (PartKey_proofs.ps_calculate_token_spec (st_part st) _ _ _ H1 H2 H3 H4).
+  rewrite (PartKey_proofs.ps_calculate_token_spec true (st_part st) _ _ _ H1 H2 H3 H4).
   eexists. split; [reflexivity|]. split; reflexivity.
 Qed.
 
@@ -1562,4 +1562,185 @@ Proof.
   - destruct (pool_sharder p) eqn:Es; [|reflexivity].
     destruct (pool_has_shard p (shard_u16 want)) eqn:Eh; [|reflexivity].
     apply N.eqb_eq. apply Hsh; [congruence|reflexivity].
+Qed.
+
+(* ====================================================================================== *)
+(* 6. deepening: LWT determinism, tablets without a usable replica, unknown hosts, trimming *)
+(* ====================================================================================== *)
+
+(* LWT: the first attempt is THE first live replica (ring order / tablet order) of the first
+   location criterion that has one -- the same for every oracle *)
+Theorem lwt_first_target cl cfg st values cho shufp rq x rest :
+  cho_ok cho -> shuf_ok shufp -> cluster_ok cl -> sorted_weak (c_ring cl) -> keys_ok cl ->
+  routing_request st cfg values = Ok rq -> rq_lwt rq = true ->
+  replica_cands cl cfg rq (route_source cl (ex_pol cfg) rq (st_table st)) = x :: rest ->
+  exists c, route cl cho shufp cfg st values = Ok (Some (fst x, c)) /\
+    In c (pool_conns (c_pool cl (fst x))) /\
+    (pool_sharder (c_pool cl (fst x)) <> None ->
+     pool_has_shard (c_pool cl (fst x)) (shard_u16 (snd x)) = true -> conn_shard c = shard_u16 (snd x)).
+Proof.
+  intros Hc Hsh [Hwf Hen] Hs Hk Hrq Hl Hrc.
+  destruct (route_source cl (ex_pol cfg) rq (st_table st)) as [s|] eqn:Esrc; [|discriminate].
+  pose proof (route_source_views cl (ex_pol cfg) rq (st_table st) s Hs Hk Esrc) as Hord.
+  destruct (plan_head_replica cl cfg rq cho shufp Hc s Hord x rest Hrc) as (y & tl & Hy & Hyx & Hp).
+  rewrite (Hyx Hl) in Hp. clear y Hy Hyx.
+  assert (Ha : alive (c_enabled cl) (c_connected cl) (fst x) = true).
+  { assert (Hin : In x (replica_cands cl cfg rq (Some s))) by (rewrite Hrc; now left).
+    unfold replica_cands in Hin. apply first_nonempty_In in Hin. destruct Hin as (v & Hv & Hx).
+    apply in_map_iff in Hv. destruct Hv as (c & <- & _). exact (cands_alive cl rq s c x Hx). }
+  destruct (first_attempt_head cl cho Hc Hwf (to_target x) tl Ha) as (c & Ec & Hin & Hshard).
+  exists c. split.
+  - unfold route. rewrite Hrq. unfold route_plan. rewrite Esrc, Hp, Ec. reflexivity.
+  - split; [exact Hin|]. intros H1 H2. exact (Hshard (snd x) eq_refl H1 H2).
+Qed.
+
+(* what the LWT candidates of a tablet table are: the tablet's own list, in ITS order, restricted
+   to the live nodes (and to the criterion's datacenter / rack) *)
+Lemma lwt_cands_tablet cl (rq : request) k t c : rq_lwt rq = true ->
+  g_filtered (c_rackf cl) (c_enabled cl) (c_connected cl) (tablet_source (c_tablets cl) k t) c (rq_lwt rq) =
+  filter (fun x => c_alive cl (fst x) && crit_ok (c_rackf cl) c (fst x))
+         (tablet_reps (c_tablets cl) k t (crit_dc c)).
+Proof. intros ->. reflexivity. Qed.
+
+(* ... and of a ring table: the replicas in the order of their first position on the ring walk
+   from the token (C04_views_ordered), each with its computed shard *)
+Lemma lwt_cands_ring cl (rq : request) t s c : rq_lwt rq = true -> sorted_weak (c_ring cl) -> nts_keys_ok s ->
+  g_filtered (c_rackf cl) (c_enabled cl) (c_connected cl) (ring_source cl t s) c (rq_lwt rq) =
+  filter (fun x => c_alive cl (fst x) && crit_ok (c_rackf cl) c (fst x))
+    (map (fun n => (n, computed_shard (c_pool cl n) t))
+       (filter (fun n => mem n (spec_replicas (c_dcf cl) (c_rackf cl) (c_ring cl) t s (crit_dc c)))
+               (uniq (ring_range (c_ring cl) t)))).
+Proof.
+  intros -> Hs Hk. unfold g_filtered. cbn [ring_source src_ordered].
+  rewrite ordered_view by assumption. cbn [fst]. now rewrite replicas_spec by assumption.
+Qed.
+
+(* a table with a tablets entry but no live permitted replica for the token (no tablet covers it,
+   or the covering tablet names only unknown / dead hosts): the request is NOT routed by the ring;
+   the first attempt goes to a live node of the first node group that has one, or nowhere *)
+Theorem tablet_no_replica_nodes cl cfg st values cho shufp rq :
+  cho_ok cho -> shuf_ok shufp -> cluster_ok cl -> sorted_weak (c_ring cl) -> keys_ok cl ->
+  routing_request st cfg values = Ok rq ->
+  replica_cands cl cfg rq (route_source cl (ex_pol cfg) rq (st_table st)) = [] ->
+  match route_obs cl cho shufp cfg st values with
+  | Ok (Some (n, sh)) => In n (node_cands cl cfg rq) /\ pool_has_shard (c_pool cl n) sh = true
+  | Ok None => node_cands cl cfg rq = []
+  | Err _ => False
+  end.
+Proof.
+  intros Hc Hsh [Hwf Hen] Hs Hk Hrq Hrc.
+  pose proof (plan_accepted cl cfg rq cho shufp Hc Hsh Hwf
+                (route_source cl (ex_pol cfg) rq (st_table st))
+                (fun s Es => route_source_views cl (ex_pol cfg) rq (st_table st) s Hs Hk Es)) as Ha.
+  unfold route_obs, route. rewrite Hrq. unfold route_plan.
+  unfold accept_obs in Ha. rewrite Hrc in Ha.
+  destruct (obs_of _) as [[n sh]|].
+  - destruct (node_cands cl cfg rq) as [|y l] eqn:En; [discriminate|].
+    apply andb_true_iff in Ha. destruct Ha as [H1 H2]. split; [now apply mem_In|].
+    unfold accept_shard in H2. destruct (pool_sharder (c_pool cl n)); exact H2.
+  - destruct (node_cands cl cfg rq); [reflexivity|discriminate].
+Qed.
+
+Lemma tablet_uncovered_no_cands cl cfg rq k t :
+  tablets_coherent cl -> Tablets.lookup (c_tablets cl) k t = None ->
+  replica_cands cl cfg rq (Some (tablet_source (c_tablets cl) k t)) = [].
+Proof.
+  intros [Hdc _] Hl. unfold replica_cands.
+  assert (G : forall c, g_filtered (c_rackf cl) (c_enabled cl) (c_connected cl)
+                          (tablet_source (c_tablets cl) k t) c (rq_lwt rq) = []).
+  { intros c. unfold g_filtered. cbn [tablet_source src_iter src_ordered]. unfold tablet_reps.
+    destruct (crit_dc c) as [d|]; [rewrite Hdc|]; rewrite Hl; destruct (rq_lwt rq); reflexivity. }
+  induction (allowed_crits (ex_pol cfg) rq) as [|c cs IH]; [reflexivity|].
+  cbn [map first_nonempty]. now rewrite G.
+Qed.
+
+(* composed with C15: right after a payload naming hosts the driver does not know, the owners of
+   a token of its range are exactly the KNOWN hosts of the payload, in payload order (the unknown
+   ones are skipped, there is no fallback to the ring) *)
+Theorem owners_after_learn cl pre k a b raw known tok s :
+  Forall Tablets.op_i64 (pre ++ [Tablets.Learn k a b raw known]) ->
+  Tablets.run (pre ++ [Tablets.Learn k a b raw known]) = Some (c_tablets cl) ->
+  Tablets.spec_payload_ok a b raw = true -> a < tok <= b ->
+  owners cl k tok s =
+  map (fun r => (Tablets.host (fst r), snd r))
+      (Tablets.spec_resolved known (map (fun hs => (fst hs, Z.to_N (snd hs))) raw)).
+Proof.
+  intros Hi Hr Hp Ht.
+  pose proof (Tablets_proofs.latest_wins pre [] k a b raw known tok (c_tablets cl) Hi Hr Hp Ht eq_refl) as Hl.
+  cbn in Hl. unfold owners.
+  destruct (Tablets.find_table (c_tablets cl) k) as [tt|] eqn:Eft.
+  - rewrite Hl. reflexivity.
+  - unfold Tablets.lookup, Tablets.lookup_tablet in Hl. rewrite Eft in Hl. discriminate.
+Qed.
+
+(* ---- excess-connection trimming: a full pool keeps no excess connection ------------------ *)
+Lemma forallb_set_slot_shrink {A} (n : nat) i (v : list A) (l : list (list A)) :
+  (List.length v <= List.length (nth i l []))%nat ->
+  forallb (fun w => (n <=? List.length w)%nat) (set_slot i v l) = true ->
+  forallb (fun w => (n <=? List.length w)%nat) l = true.
+Proof.
+  revert i. induction l as [|w l IH]; intros i Hv H; [reflexivity|].
+  destruct i as [|i]; cbn [set_slot forallb nth] in *.
+  - apply andb_true_iff in H. destruct H as [H1 H2]. apply andb_true_iff. split; [|assumption].
+    apply Nat.leb_le in H1. apply Nat.leb_le. lia.
+  - apply andb_true_iff in H. destruct H as [H1 H2]. apply andb_true_iff. split; [assumption|].
+    now apply (IH i).
+Qed.
+
+Lemma concat_set_slot_length {A} i (v : list A) (l : list (list A)) : (i < List.length l)%nat ->
+  (List.length (concat (set_slot i v l)) + List.length (nth i l []) =
+   List.length (concat l) + List.length v)%nat.
+Proof.
+  revert i. induction l as [|w l IH]; intros i Hi; [cbn in Hi; lia|].
+  destruct i as [|i]; cbn [set_slot concat nth]; rewrite !app_length.
+  - lia.
+  - cbn in Hi. specialize (IH i ltac:(lia)). lia.
+Qed.
+
+Definition trimmed (size : pool_size) (r : refiller) : Prop :=
+  rf_is_full size r = true -> rf_excess r = [].
+
+Lemma remove_conn_trimmed size r c : trimmed size r -> trimmed size (remove_conn r c).
+Proof.
+  intros Ht. unfold remove_conn.
+  destruct (if (N.to_nat (conn_shard c) <? List.length (rf_conns r))%nat
+            then index_conn c (nth (N.to_nat (conn_shard c)) (rf_conns r) []) else None) as [idx|] eqn:E.
+  - intros Hf. cbn [rf_excess]. apply Ht.
+    destruct (N.to_nat (conn_shard c) <? List.length (rf_conns r))%nat eqn:Elt; [|discriminate].
+    apply Nat.ltb_lt in Elt.
+    set (i := N.to_nat (conn_shard c)) in *. set (v := nth i (rf_conns r) []) in *.
+    assert (Hidx : (idx < List.length v)%nat).
+    { clear -E. revert idx E. induction v as [|x v IH]; intros idx E; [discriminate|].
+      cbn [index_conn] in E. destruct (conn_eqb c x); [injection E as <-; cbn; lia|].
+      destruct (index_conn c v) as [j|]; [|discriminate]. injection E as <-. specialize (IH j eq_refl). cbn. lia. }
+    pose proof (swap_remove_length idx v Hidx) as Hlen.
+    unfold rf_is_full in *. cbn [rf_conns rf_sharder rf_excess active_count] in *. destruct size as [n|n].
+    + unfold active_count in *. cbn [rf_conns] in Hf.
+      pose proof (concat_set_slot_length i (swap_remove idx v) (rf_conns r) Elt) as Hc. fold v in Hc.
+      apply Nat.leb_le in Hf. apply Nat.leb_le. lia.
+    + apply (forallb_set_slot_shrink n i (swap_remove idx v)); [fold v; lia|exact Hf].
+  - destruct (index_conn c (rf_excess r)) as [idx|] eqn:E2; [|exact Ht].
+    intros Hf. cbn [rf_excess]. unfold rf_is_full in Hf. cbn [rf_conns] in Hf.
+    assert (He : rf_excess r = []).
+    { apply Ht. unfold rf_is_full. destruct size; exact Hf. }
+    rewrite He in E2. discriminate.
+Qed.
+
+Theorem pool_run_trimmed size evs : trimmed size (pool_run size evs).
+Proof.
+  unfold pool_run. assert (H0 : trimmed size rf_init) by (intros _; reflexivity).
+  revert H0. generalize rf_init. induction evs as [|e evs IH]; intros r Hr; [exact Hr|].
+  cbn [fold_left]. apply IH. destruct e as [c rq|c]; cbn [pool_step].
+  - destruct (rf_is_full size (handle_ready size r c rq)) eqn:Ef.
+    + intros _. reflexivity.
+    + intros Hf. congruence.
+  - now apply remove_conn_trimmed.
+Qed.
+
+Lemma refill_ok_sound size evs final : refill_ok size evs final = true ->
+  map conn_shard (concat (rf_conns (pool_run size evs))) = final /\
+  (rf_is_full size (pool_run size evs) = true -> rf_excess (pool_run size evs) = []).
+Proof.
+  unfold refill_ok. intros H. apply andb_true_iff in H. destruct H as [H1 _].
+  split; [now apply list_eqb_spec|apply pool_run_trimmed].
 Qed.
